@@ -358,6 +358,52 @@ func (g *genState) scriptSplitVote() {
 	}
 }
 
+// scriptReplayAfterSetChange: a keyper's transaction, then a configuration without that keyper voted in by
+// everybody, then the same transaction (same nonce) again, then the keyper voted back in and the transaction
+// once more.
+func (g *genState) scriptReplayAfterSetChange() {
+	if g.aim == nil {
+		return
+	}
+	last := g.aim.App.Configs[len(g.aim.App.Configs)-1]
+	n := len(last.Keypers)
+	if n < 2 {
+		return
+	}
+	r := g.r
+	if g.maxIndex < last.KeyperConfigIndex {
+		g.maxIndex = last.KeyperConfigIndex
+	}
+	out := r.Intn(n)
+	k := last.Keypers[out]
+	first := &TxSpec{Signer: g.signerOf(k), Chain: g.chain, Nonce: g.freshNonce(), P: Payload{Kind: "bs", A: last.ActivationBlockNumber}}
+	if r.Chance(40) {
+		first.P = Payload{Kind: "ci", ValKey: valKey(out), EncKey: encKey(out % 3)}
+	}
+	rest := [][]byte{}
+	for i, a := range last.Keypers {
+		if i != out {
+			rest = append(rest, a.Bytes())
+		}
+	}
+	g.maxIndex++
+	without := Payload{Kind: "bc", A: last.ActivationBlockNumber, T: 1, I: g.maxIndex, Addrs: rest}
+	g.maxIndex++
+	back := Payload{Kind: "bc", A: last.ActivationBlockNumber, T: 1, I: g.maxIndex, Addrs: append(append([][]byte{}, rest...), k.Bytes())}
+	again := func() { c := *first; g.script = append(g.script, &c) }
+	g.script = append(g.script, first)
+	for _, a := range last.Keypers {
+		g.script = append(g.script, &TxSpec{Signer: g.signerOf(a), Chain: g.chain, Nonce: g.freshNonce(), P: without})
+	}
+	again()
+	for _, a := range last.Keypers {
+		if a != k {
+			g.script = append(g.script, &TxSpec{Signer: g.signerOf(a), Chain: g.chain, Nonce: g.freshNonce(), P: back})
+		}
+	}
+	again()
+}
+
 // scriptRestart: failure reports for the newest or an older eon by the keypers of its configuration
 func (g *genState) scriptRestart() {
 	if g.aim == nil || len(g.aim.App.DKGMap) == 0 {
@@ -461,6 +507,8 @@ func GenHistory(r *hx.Rand, u *Universe, p GenParams) []*Op {
 				g.scriptSplitVote()
 			case k < 20:
 				g.scriptRestart()
+			case k < 26:
+				g.scriptReplayAfterSetChange()
 			}
 		}
 		ntx := r.Intn(p.TxPerBlock + 1)
